@@ -15,7 +15,7 @@ CASE_TYPE = 'C10.case'
 EXTRA_IMPORTS = 'From PJ Require Import Model.Async.\n'
 RULE = ('batches of 1..3 (quick) / 1..4 (thorough) elements, each element a call or a notification of a method that succeeds / raises a '
         'protocol error / raises another exception / is unknown / is a plain non-coroutine function / is a method of a class-based view keeping per-call state on its instance across the suspension / takes no parameters (one of them receiving the application context by keyword) and is called without a params member, with 0..2 suspension points placed '
-        'in the method, in a middleware (before / after the inner handler) or in an error handler (a third of the shapes also under a plain-function middleware that returns the inner awaitable); every suspension point is a Future; '
+        'in the method, in a middleware (before / after the inner handler) or in an error handler (generic and per-code handlers; several elements failing with one code; batches of notifications only) (a third of the shapes also under a plain-function middleware that returns the inner awaitable); every suspension point is a Future; '
         'ALL interleavings of the resolution order are enumerated (multiset permutations; sampled above 400 per shape in quick) for the '
         'concurrent mode, and the forced order for concurrent_batch=False. Each element is also dispatched ALONE to obtain its own trace '
         'and response. distinct = distinct (shape, mode, schedule); non-trivial = at least two elements and one resolved suspension')
@@ -69,6 +69,12 @@ def build(shape, gate, concurrent):
         await suspend(k, 'eh')
         return error
 
+    async def eh_code(request, context, error):
+        # a handler registered for one code: stamps the error with the element it was run for
+        k = elem(request)
+        gate.log.append((k, ['eh-code', error.code]))
+        return type(error)(code=error.code, message=error.message, data=['stamped', k])
+
     def plain_mw(request, context, handler):
         # a middleware written as a plain function that does its bookkeeping and hands back the awaitable of the inner handler
         # (the middleware type allows it): entering happens when the dispatcher CALLS the chain, not when it awaits it
@@ -79,7 +85,7 @@ def build(shape, gate, concurrent):
     use_mw = any(e['where'] in ('mw_pre', 'mw_post') for e in shape)
     use_eh = any(e['where'] == 'eh' for e in shape)
     mws = ([mw] if use_mw else []) + ([plain_mw] if any(e.get('plain_mw') for e in shape) else [])
-    disp = AsyncDispatcher(middlewares=mws, error_handlers={None: [eh]} if use_eh else {},
+    disp = AsyncDispatcher(middlewares=mws, error_handlers={None: [eh], 7: [eh_code], -32000: [eh_code]} if use_eh else {},
                            concurrent_batch=concurrent)
 
     async def ok(a):
@@ -237,11 +243,24 @@ def shapes(tier, rnd):
         [('ok', 2, 'method', False), ('ok', 0, 'method', False), ('ok', 1, 'method', False)],
         [('vok', 1, 'method', False), ('vok', 0, 'method', False)],
         [('vok', 2, 'method', False), ('vfail', 1, 'method', False), ('vok', 1, 'method', True)],
+        # two and more elements failing with the SAME code under generic + per-code handlers (each element goes through all of them)
+        [('fail', 1, 'eh', False), ('fail', 1, 'eh', False)],
+        [('fail', 0, 'eh', True), ('fail', 1, 'eh', False), ('ok', 1, 'method', False)],
+        [('boom', 1, 'eh', False), ('ok', 0, 'method', False), ('boom', 0, 'eh', False), ('boom', 1, 'eh', True)],
+        [('fail', 1, 'method', False), ('vfail', 1, 'eh', False), ('fail', 0, 'eh', False)],
         [('whoami', 1, 'method', False), ('ping', 1, 'method', False)],
         [('ping', 1, 'method', False), ('whoami', 0, 'method', False), ('ok', 1, 'method', False)],
         [('whoami', 0, 'method', True), ('ok', 1, 'mw_pre', False), ('ping', 0, 'method', True)],
     ]
     out += base
+    # batches made of notifications only (nothing is answered - the mode still decides whether they overlap), suspending
+    for ms in (('ok', 'ok'), ('ok', 'fail'), ('vok', 'ok'), ('ok', 'plain', 'ok'), ('fail', 'ok', 'boom'), ('ok', 'ok', 'ok'), ('nosuch', 'ok', 'vok')):
+        for w in ('method', 'mw_pre', 'mw_post', 'eh'):
+            sh = []
+            for j, m in enumerate(ms):
+                susp = 0 if (m in ('plain', 'nosuch') and w == 'method') else (2 if j == 0 else 1)
+                sh.append((m, susp, w, True))
+            out.append(sh)
     n_rand = 30 if tier == 'quick' else 160
     for _ in range(n_rand):
         n = rnd.choice([2, 3, 3] if tier == 'quick' else [2, 3, 4, 4])
